@@ -404,7 +404,9 @@ pub fn run_conc(sc: &ConcScenario) -> Outcome {
                     note_state(fingerprint(p));
                 }
             }
-            w(|w| w.viol.is_empty())
+            // a violation of a property this scenario was not built for does not
+            // end the execution (see World::own_clean)
+            w(|w| w.own_clean())
         },
     );
     drop(obs_pool);
@@ -460,7 +462,7 @@ pub fn run_conc(sc: &ConcScenario) -> Outcome {
         Verdict::Stopped => {}
     }
     let deadlocked = matches!(verdict, Verdict::Deadlock(_) | Verdict::Horizon);
-    let cascade = !w(|w| w.viol.is_empty()) || machinery.is_some();
+    let cascade = !w(|w| w.own_clean()) || machinery.is_some();
     if !deadlocked {
         // finish every actor so that its coroutine stack can be reused; what
         // happens during this after a violation is not reported
@@ -477,7 +479,7 @@ pub fn run_conc(sc: &ConcScenario) -> Outcome {
             }
         }
     }
-    if !deadlocked && machinery.is_none() && w(|w| w.viol.is_empty()) {
+    if !deadlocked && machinery.is_none() && w(|w| w.own_clean()) {
         // return everything that is still checked out
         let whos: Vec<usize> = w(|w| w.hands.keys().copied().collect());
         for who in whos {
@@ -491,7 +493,7 @@ pub fn run_conc(sc: &ConcScenario) -> Outcome {
                 check_plausible(w, &st, "after wind-down");
                 check_exact(w, &st, 0, "after everything was returned");
             });
-            if w(|w| w.viol.is_empty()) {
+            if w(|w| w.own_clean()) {
                 probe(p);
             }
         }
